@@ -278,9 +278,14 @@ def check_agree(ctx: Ctx, rule: str, site: str, construct: str, found: Term, ref
 from ..logic import evalt  # noqa: E402
 
 
-def sole_writer_in_body(ctx: Ctx, rule: str, comp, ex, target: Term, body: BodyDef, what: str, rhs_pred=None, gated: bool = True, construct: str = ""):
-    """All writers of `target` sit in `body`; when `gated`, in a domain that is guarded by the body's run."""
-    ws = writers_of(ex, target)
+def sole_writer_in_body(ctx: Ctx, rule: str, comp, ex, target: Term, body: BodyDef, what: str, rhs_pred=None, gated: bool = True, construct: str = "", sync=False):
+    """All writers of `target` sit in `body`; when `gated`, in a domain that is guarded by the body's run.  By default the
+    target is a wire: a writer in a clocked domain (same statement, one cycle late) does not count."""
+    ws = writers_of(ex, target, sync)
+    other = [w for w in writers_of(ex, target, "any") if w not in ws and all(w.fact is not x.fact for x in ws)]
+    if other:
+        ctx.bad(rule + ".domain", other[0].fact.site, (construct or f"{comp.clsname}.{tstr(target)}") + ".domain", found=f"{tstr(other[0].fact.domain)} += {tstr(other[0].fact.lhs)}.eq(...)",
+                required=("a combinational pulse (same cycle as the call)" if not sync else "a registered update") + ": " + what)
     ok = bool(ws)
     detail = []
     for w in ws:
